@@ -37,6 +37,7 @@ type Engine struct {
 	scanned    bool
 	closures   []closureInfo
 	ifaceSrcList []types.Type
+	cleanResult  map[string]bool
 }
 
 func debugObject(d *ssa.DebugRef) types.Object { return d.Object() }
@@ -123,6 +124,53 @@ func (e *Engine) Load(patterns []string) error {
 			e.cs.FuncOrder = append(e.cs.FuncOrder, n)
 		}
 	}
+	// verif:taintscan: every function defined in the listed files gets a contract with no
+	// clauses (partial correctness, no safety obligations): only the diagnostic-content
+	// (taint) obligations are generated for it.
+	for _, ts := range e.cs.TaintFiles {
+		want := map[string]bool{}
+		for _, f := range ts.Files {
+			want[f] = true
+		}
+		var names []string
+		for n, fn := range e.fnByName {
+			if !strings.HasPrefix(n, ts.PkgPath+".") || fn.Pkg == nil && fn.Parent() == nil {
+				continue
+			}
+			pkg := fn.Pkg
+			for p := fn; pkg == nil && p != nil; p = p.Parent() {
+				pkg = p.Pkg
+			}
+			if pkg == nil || pkg.Pkg.Path() != ts.PkgPath || !fn.Pos().IsValid() || len(fn.Blocks) == 0 {
+				continue
+			}
+			if want[filepath.Base(e.fset.Position(fn.Pos()).Filename)] {
+				names = append(names, n)
+			}
+		}
+		sort.Strings(names)
+		for _, n := range names {
+			if c, has := e.cs.Funcs[n]; has {
+				// already under contract for another unit: it also serves the taint property
+				for _, p := range ts.Props {
+					found := false
+					for _, q := range c.Props {
+						if q == p {
+							found = true
+						}
+					}
+					if !found {
+						c.Props = append(append([]string{}, c.Props...), p)
+					}
+				}
+				c.Taint = true
+				continue
+			}
+			c := &FuncContract{Key: strings.TrimPrefix(n, ts.PkgPath+"."), PkgPath: ts.PkgPath, Loops: map[int]*LoopSpec{}, Unit: ts.Unit, Props: ts.Props, Where: "verif:taintscan", NoSafety: true, Taint: true}
+			e.cs.Funcs[n] = c
+			e.cs.FuncOrder = append(e.cs.FuncOrder, n)
+		}
+	}
 	assumed, _ := filepath.Glob(filepath.Join(e.verifDir, "contracts", "assumed", "*.spec"))
 	sort.Strings(assumed)
 	for _, f := range assumed {
@@ -133,6 +181,14 @@ func (e *Engine) Load(patterns []string) error {
 		data, _ := os.ReadFile(f)
 		for _, line := range strings.Split(string(data), "\n") {
 			line = strings.TrimSpace(line)
+			if strings.HasPrefix(line, "// verif-cleanresult ") {
+				if e.cleanResult == nil {
+					e.cleanResult = map[string]bool{}
+				}
+				for _, n := range strings.Fields(strings.TrimPrefix(line, "// verif-cleanresult ")) {
+					e.cleanResult[n] = true
+				}
+			}
 			if strings.HasPrefix(line, "// verif-pure ") {
 				for _, n := range strings.Fields(strings.TrimPrefix(line, "// verif-pure ")) {
 					e.pureExt[n] = true
